@@ -102,6 +102,32 @@ CLAIMED["C15"] = ("static: constant-capacity and non-blocking-send rules on the 
   "Exactly-once in-order delivery for every history and timing needs the file system, clock and scheduler; not decided.",
   "DESIGN.md §3 C15")
 
+
+# Clauses added in the second round of seeded changes (appended to technique / level text).
+EXTRA = {
+ "C01": ("; per-worker matcher instance and fresh-instance rule on CreateInstance implementations", " Also: every worker evaluates with its own, freshly built matcher instance."),
+ "C02": ("; pattern-flow rule (compiled pattern = flag value, at most prefixed with (?i)); contiguous-copy rule on colour wrapping (guard facts)", " Also: the compiled pattern is the user's pattern; coloured output copies the line contiguously."),
+ "C03": ("; borrowed aggregator rules (same accumulation set on all paths, parse errors counted and not sampled, independent min/max)", " Also: the redundant-state and parse-error rules of the aggregators that feed the result."),
+ "C04": ("; return-form rule on dropCR (argument, or argument minus its last byte under the CR test)", " Also: dropCR removes at most the one trailing carriage return."),
+ "C05": ("; counters advanced only in the classifying function (count before publish); fresh-instance rule; pool Return at most once per path", " Also: a match is counted before it is published; matcher instances are never shared; pooled contexts are not returned twice."),
+ "C06": ("; error-origin rule on openFileToReader (only open/rewind failures make an input unreadable); log-only paths do not count as handling in the expansion loop", " Also: a failed gzip probe falls back to plain reading; an argument that is not a valid pattern is still opened."),
+ "C07": ("; barrier-reachability rule: a fresh accumulator row is filled with the initial values before column expressions run", " Also: accumulator rows start from the columns' initial values."),
+ "C08": ("; pooled-context typestate (bound before use, returned on every exit, returned at most once)", " Also: pooled contexts cannot be used unbound or pooled twice."),
+ "C09": ("; must-pass-through rule: every argument goes through the recursive Compile; byte-as-rune lint generalised to byte variables with ASCII guard facts", " Also: arguments are compiled uniformly; no byte of the template is treated as a code point."),
+ "C10": ("; borrowed probe/fold/purity rules of the formula simplifier", " Also: the formula engine's constant folding obeys the probe discipline."),
+ "C11": ("; csv-encoded flow rule, floating-point-only scaling rule in unitize, stage closures keep no state", " Also: csv arguments always pass the encoder, unit scaling never truncates in the integer domain, helpers keep no state between evaluations."),
+ "C12": ("; nil-only-on-miss guard rule, search-offset re-base rule, fresh-instance rule", " Also: no-match only where a literal was not found; offsets found in a suffix are re-based; instances are fresh."),
+ "C13": ("; fresh-comparator rule (no comparator stored in package-level state; no shared comparator built from a constructor with memory)", " Also: comparators with memory cannot be shared between sorts."),
+ "C14": ("; monotone rule on the bar block count, scale-agreement rule between the redraw trigger and the draw routines, displayed-values flow rule in DataTable", " Also: bar segments are only rounded down, the bar graph rescales on the quantity it draws, and table figures are the aggregator's own."),
+ "C15": ("; event-filter shape rule (equality of names under one normalisation); C01-b rules on the time-flush loop", " Also: directory events of other files cannot be taken for the followed file; time-flushed batches are never re-used."),
+ "C16": ("; sort-totality rule for comparator literals over collected keys; byte-widening lint", " Also: keys are only considered sorted by a comparator that distinguishes distinct keys; bytes are never widened to runes on output."),
+ "C17": ("; search-offset re-base rule on the splitter; pool Return at most once", " Also: the splitter re-bases offsets found in a suffix; sub-contexts are not pooled twice."),
+ "C19": ("; pooled binding wrapper of kfMath: per evaluation, bound before use, returned once", " Also: formula bindings are per evaluation."),
+}
+for _pid, (_t, _x) in EXTRA.items():
+    tech, text, note, ref = CLAIMED[_pid]
+    CLAIMED[_pid] = (tech + _t, text + _x, note, ref)
+
 PENDING_REASON = "static check for this property is designed in DESIGN.md §3 but not yet built in this revision of /verif; not claimed until it runs"
 
 def main():
